@@ -1022,6 +1022,62 @@ Proof.
   - rewrite Hblk. constructor.
 Qed.
 
+Lemma forallb_ext_in {A} (f g : A -> bool) l : (forall x, In x l -> f x = g x) -> forallb f l = forallb g l.
+Proof.
+  induction l as [|x l IH]; intros H; simpl; auto. rewrite H; [|left; auto]. f_equal. apply IH. intros; apply H; right; auto.
+Qed.
+
+(* ================================================================== H: add_vertex *)
+(* well-formedness of the vertex numbering: slots >= 0, no edge touches a slot not handed out yet *)
+Definition wf_slots (c : cplx) : Prop :=
+  0 <= slots c /\ forall e, In e (edg c) -> fst e < slots c /\ snd e < slots c.
+
+Lemma all_pairs_isolated (f : Z -> Z -> bool) (x : Z) (t : list Z) :
+  (forall w, f x w = false /\ f w x = false) -> In x t -> (2 <= length t)%nat -> all_pairs f t = false.
+Proof.
+  intros Hf. induction t as [|y t IH]; intros Hin Hl; [destruct Hin|].
+  simpl. destruct Hin as [->|Hin].
+  - destruct t as [|w t]; [simpl in Hl; lia|]. simpl. rewrite (proj1 (Hf w)). auto.
+  - destruct t as [|w t]; [destruct Hin|].
+    destruct (list_eq_dec Z.eq_dec t []) as [->|Hne].
+    + destruct Hin as [->|[]]. simpl. rewrite (proj2 (Hf y)). auto.
+    + rewrite IH; auto; [apply andb_false_r|]. destruct t; [congruence|simpl; lia].
+Qed.
+
+Theorem add_vertex_spec (c : cplx) (t : simplex) : wf_slots c ->
+  contains (add_vertex c) t = contains c t || seqb t [slots c].
+Proof.
+  intros [H0 He].
+  assert (Hcv : forall v, contains_vertex (add_vertex c) v = contains_vertex c v || (v =? slots c)).
+  { intros v. unfold contains_vertex, add_vertex. simpl slots. simpl act.
+    assert (Hm : smem v (act c ++ [slots c]) = smem v (act c) || (v =? slots c)).
+    { unfold smem. rewrite existsb_app. simpl. rewrite orb_false_r. auto. }
+    rewrite Hm. destruct (Z.eqb_spec v (slots c)) as [E|N].
+    - subst v. rewrite orb_true_r, andb_true_r, orb_true_r.
+      destruct (Z.leb_spec 0 (slots c)); destruct (Z.ltb_spec (slots c) (slots c + 1)); auto; lia.
+    - rewrite !orb_false_r. f_equal. f_equal.
+      destruct (Z.ltb_spec v (slots c + 1)); destruct (Z.ltb_spec v (slots c)); auto; lia. }
+  assert (Hno : forall w, has_edge c (slots c) w = false /\ has_edge c w (slots c) = false).
+  { intros w. unfold has_edge. split; apply not_true_is_false; intros H; apply existsb_exists in H;
+      destruct H as [e [Hin Hedge]]; destruct (He e Hin) as [H1 H2]; unfold edge_is in Hedge;
+      apply andb_true_iff in Hedge; rewrite !Z.eqb_eq in Hedge; lia. }
+  destruct t as [|x [|y r]].
+  - reflexivity.
+  - simpl contains. rewrite Hcv. simpl. rewrite andb_true_r. auto.
+  - assert (Hs : seqb (x :: y :: r) [slots c] = false) by (simpl; destruct (x =? slots c); auto).
+    rewrite Hs, orb_false_r. rewrite !contains_two.
+    assert (Hb : blocks (add_vertex c) (x :: y :: r) = blocks c (x :: y :: r)) by reflexivity.
+    rewrite Hb. f_equal. unfold contains_edges.
+    assert (Hhe : all_pairs (has_edge (add_vertex c)) (x :: y :: r) = all_pairs (has_edge c) (x :: y :: r)) by reflexivity.
+    rewrite Hhe.
+    destruct (smem (slots c) (x :: y :: r)) eqn:Es.
+    + apply smem_In in Es. rewrite (all_pairs_isolated (has_edge c) (slots c) (x :: y :: r) Hno Es); [|simpl; lia].
+      rewrite !andb_false_r. auto.
+    + f_equal. apply forallb_ext_in. intros v Hv. rewrite Hcv.
+      destruct (Z.eqb_spec v (slots c)) as [E|N]; [|apply orb_false_r].
+      subst v. apply smem_In in Hv. congruence.
+Qed.
+
 (* ================================================================== witnesses *)
 (* boundary of the tetrahedron 0123 built through the transcribed operations *)
 Definition complete4 : cplx :=
@@ -1074,6 +1130,11 @@ Proof.
 Qed.
 
 (* non-vacuity of the hypotheses used above *)
+Example wf_slots_instance : wf_slots hollow_tetrahedron.
+Proof.
+  split; [vm_compute; discriminate|]. intros e He. vm_compute in He.
+  repeat (destruct He as [<-|He]; [vm_compute; auto|]). destruct He.
+Qed.
 Example no_big_blocker_instance : no_big_blocker 3 hollow_triangle [0] /\ blk hollow_triangle = [[0; 1; 2]].
 Proof.
   split; [|vm_compute; auto]. intros b Hb _. vm_compute in Hb. destruct Hb as [<-|[]]. vm_compute. auto.
